@@ -274,6 +274,10 @@ def check_shift(ctx, rng, n, origin):
         P = "".join(gen_parts(rng, rng.randrange(1, 7)))
         L = rng.choice(RESTS)
         cases.append((pre, P, L, tb or 96))
+    check_shift_cases(ctx, cases, origin)
+
+
+def check_shift_cases(ctx, cases, origin):
     lens = ctx.impl(["calc_length\t%s\t%d\t%d" % (vlib.enc_text(c[2]), c[3], c[3]) for c in cases])
     srcs = []
     for pre, P, L, tb in cases:
@@ -541,6 +545,9 @@ def check_corpus(ctx):
     ticks = [(o["src"], o["tick"]) for o in items if o.get("kind") == "tick"]
     if ticks:
         check_tick(ctx, ticks, "corpus")
+    shifts = [(o.get("pre", ""), o["program"], o["rest"], o.get("tb", 96)) for o in items if o.get("kind") == "shift"]
+    if shifts:
+        check_shift_cases(ctx, shifts, "corpus")
     cuts = [(o["src"], o["full"], o["tp"], None) for o in items if o.get("kind") == "cut"]
     if cuts:
         check_cut_pairs(ctx, cuts, "corpus")
